@@ -11,6 +11,8 @@ from io import BytesIO
 
 
 def main_(seed, nscen):
+    from allmydata.util import cputhreadpool
+    cputhreadpool._DISABLED = True      # zfec and RSA key generation run inline: reproducible schedules
     from twisted.internet import defer, reactor
     from foolscap.api import fireEventually
     from allmydata import client
